@@ -162,6 +162,21 @@ def check(run):
             broken.append(('correspondence', 'DE.SMCrash (fobs/robs) vs FileStateMachine/RocksDBStateMachine (probe smcrash)',
                            '%d disagreements; first on %s -> impl %s' % (len(mism), json.dumps(pairs[i][0]), json.dumps(pairs[i][1]))))
         run.cov['disagreements'] = len(mism)
+        # a crash INSIDE the checkpoint that ends a large apply batch (File engine): state.data and metadata.bin written, WAL
+        # not yet truncated (probe smckpt: the two files are named pipes, so the image of that moment is captured)
+        r2 = run.rng('smckpt'); kc = []
+        for _ in range(40 if thorough else 10):
+            op = lambda: [r2.choice([0, 0, 1]), r2.range(1, 3), r2.range(1, 9)]
+            kc.append([[op() for _ in range(r2.range(1, 4))], [op() for _ in range(r2.range(1, 4))], 2])
+        kc.append([[[0, 1, 100], [0, 2, 7]], [[0, 1, 200], [1, 2, 0]], 2])
+        kouts = core.probe_parallel('smckpt', kc, jobs=5, timeout=900)
+        kok = 0
+        for c, o in zip(kc, kouts):
+            if isinstance(o, str): broken.append(('harness', 'smckpt probe error', (json.dumps(c) + ' -> ' + o)[:300])); continue
+            kok += 1
+            v = ckpt_oracle(c, o)
+            if v: violations.append({'class': v[0], 'probe': 'smckpt', 'input': c, 'output': o, 'why': v[1]})
+        dist['crash-inside-checkpoint-cases'] = kok
         dist['crash-points'] = npts; dist['crash-points-where-index-is-behind-the-data'] = behind
         dist['crash-points-violating'] = len(violations)
         run.add_cases(len(pairs), len({json.dumps(c) for c, _ in pairs}), [{'case': pairs[j][0], 'impl': pairs[j][1]} for j in (0, len(pairs) - 1)] if pairs else [], dist,
@@ -170,11 +185,31 @@ def check(run):
         broken.append(('harness', b.what, b.detail))
     return flow.conclude(run, broken, violations)
 
+def ckpt_oracle(case, out):
+    """after the restart the state must be exactly the result of applying entries 1..=reported once, in order (Raft resumes
+    at reported + 1)"""
+    reported, vals = out
+    ops = list(case[0]) + list(case[1])
+    st = {}
+    for i, (kind, key, val) in enumerate(ops):
+        if i + 1 > reported: break
+        if kind == 1: st.pop(key, None)
+        else: st[key] = val
+    for key, got in vals:
+        want = [st[key]] if key in st else []
+        if got != want:
+            return ('crash-inside-checkpoint-state-differs-from-applied-prefix',
+                    'crash after state.data and metadata.bin were written and before the WAL was truncated: the restarted File state machine reports last_applied = %d but key k%d holds %s; applying entries 1..%d gives %s (first batch %s, second batch %s + fillers up to 1000)' % (reported, key, got, reported, want, case[0], case[1]))
+    return None
+
 def replay(path):
     r = json.load(open(path))
     if r.get('kind') != 'counterexample':
         print('broken obligation:', [b['name'] for b in r.get('broken', [])]); return 1
     core.harness_build()
+    if r.get('probe') == 'smckpt':
+        out = core.probe('smckpt', [r['input']])[0]; v = ckpt_oracle(r['input'], out)
+        print('implementation output:', json.dumps(out)); print('VIOLATES [%s]: %s' % v if v else 'ok'); return 1 if v else 0
     out = core.probe('smcrash', [r['input']])[0]
     print('implementation output:', json.dumps(out)); why = oracle(r['input'], out)
     for cls, w in why: print('VIOLATES [%s]: %s' % (cls, w))
